@@ -64,10 +64,11 @@ def op_strategy(kind: str, cfg: dict):
     name = st.sampled_from(NAMES)
     if kind == "group":
         return st.fixed_dictionaries({"op": st.just("group"), "cls": st.sampled_from(cfg["group_classes"]),
-                                      "parent": idx, "name": name})
+                                      "parent": idx, "name": name, "deferred": st.integers(0, 11).map(lambda v: v == 0)})
     if kind == "object":
         return st.fixed_dictionaries({"op": st.just("object"), "cls": st.sampled_from(cfg["object_classes"]),
-                                      "parent": idx, "name": name, "geom": geom_strategy()})
+                                      "parent": idx, "name": name, "geom": geom_strategy(),
+                                      "deferred": st.integers(0, 11).map(lambda v: v == 0)})
     if kind == "data":
         return st.fixed_dictionaries(
             {"op": st.just("data"), "obj": idx, "kind": st.sampled_from(cfg["data_kinds"]),
@@ -494,13 +495,27 @@ class TreeRun:
         parent = wd.entity(parent_uid)
         cls = F.get_class(op["cls"])
         self.parents.add(parent_uid)
-        new = self.call(op["cls"], cls.create, wd.ws, parent=parent, name=op["name"])
+        deferred = bool(op.get("deferred")) and self.opts.get("deferred_creation", True)
+        if deferred:
+            new = self.call(op["cls"], wd.ws.create_entity, cls, save_on_creation=False,
+                            entity={"parent": parent, "name": op["name"]})
+        else:
+            new = self.call(op["cls"], cls.create, wd.ws, parent=parent, name=op["name"])
         uid = str(new.uid)
         node = snap_entity(new)
         self.check_created(wd, uid, node, op["cls"], parent_uid, op["name"], "group")
         wd.adopt(uid, node, "group")
         del new, parent
+        if deferred:
+            self.flush_deferred()
         return True
+
+    def flush_deferred(self):
+        """An entity created with save_on_creation=False is written when the workspace closes: close and re-open
+        right away (no other operation is offered an entity that is not on file yet)."""
+        self.res.label("created-deferred-then-closed")
+        self.since_reopen_mut = True
+        self.do_reopen(final=False)
 
     def check_created(self, wd, uid, node, cls_name, parent_uid, name, opkind):
         if uid in wd.nodes:
@@ -759,7 +774,12 @@ class TreeRun:
         kwargs = F.object_kwargs(op["cls"], op["geom"])
         given = {k: (v.copy() if isinstance(v, np.ndarray) else v) for k, v in kwargs.items()}
         self.parents.add(parent_uid)
-        new = self.call(op["cls"], cls.create, wd.ws, parent=parent, name=op["name"], **kwargs)
+        deferred = bool(op.get("deferred")) and self.opts.get("deferred_creation", True)
+        if deferred:
+            new = self.call(op["cls"], wd.ws.create_entity, cls, save_on_creation=False,
+                            entity={"parent": parent, "name": op["name"], **kwargs})
+        else:
+            new = self.call(op["cls"], cls.create, wd.ws, parent=parent, name=op["name"], **kwargs)
         uid = str(new.uid)
         node = snap_entity(new)
         self.check_created(wd, uid, node, op["cls"], parent_uid, op["name"], "object")
@@ -770,6 +790,8 @@ class TreeRun:
                     self.fail("C01", "created-geometry", "object", op["cls"], key, f"{key} given {given[key].tolist()} got {None if got is None else got.tolist()}")
         wd.adopt(uid, node, "object")
         del new, parent
+        if deferred:
+            self.flush_deferred()
         return True
 
     def element_count(self, wd, obj_uid, assoc):
